@@ -365,6 +365,39 @@ def foldBytes (st : St) : Bytes → Nat → St × List PTok
 /-- Buffer-free token sequence: the byte automaton over the input followed by the flushed newline. -/
 def specLex (data : Bytes) : List PTok := (foldBytes St.init (data ++ [10]) 0).2
 
+/-! ### Concatenation (compositionality, `Props/C14.C14_compositional`) -/
+
+/-- the same tokens, `k` bytes further into the input -/
+def shiftToks (k : Nat) (ts : List PTok) : List PTok := ts.map (fun t => (t.1 + k, t.2))
+
+/-- The scanners in which the input so far ends in a complete token or in a token that any white-space
+    byte completes: not inside a string, a hexadecimal string or a comment, not after a lone `<`. -/
+def Complete : Mode → Bool
+  | .main | .literal | .literalHex | .number | .float | .keyword | .wclose => true
+  | _ => false
+
+/-- `self._parse1` after the scanners have read exactly `data` -/
+def modeAfter (data : Bytes) : Mode := (foldBytes St.init data 0).1.mode
+
+/-- the tokens of `a`, then the tokens of `b` as they appear behind `a ++ ws` -/
+def concatLex (a ws b : Bytes) : List PTok := specLex a ++ shiftToks (a.length + ws.length) (specLex b)
+
+/-- the pieces written one after the other with the separator `ws` between them (content streams of a page) -/
+def joinWith (ws : Bytes) : List Bytes → Bytes
+  | [] => []
+  | [a] => a
+  | a :: r => a ++ ws ++ joinWith ws r
+
+/-- token values only -/
+def tokValues (ts : List PTok) : List Token := ts.map (·.2)
+
+/-- name of the scanner method (`_parse_<name>`) -/
+def Mode.pyName : Mode → String
+  | .main => "main" | .comment => "comment" | .literal => "literal" | .literalHex => "literal_hex"
+  | .number => "number" | .float => "float" | .keyword => "keyword" | .string => "string"
+  | .string1 => "string_1" | .string2 => "string_2" | .wopen => "wopen" | .wclose => "wclose"
+  | .hexstring => "hexstring" | .dead => "dead"
+
 /-! ### Canonical text form (driver) -/
 
 def Token.show : Token → String
